@@ -230,6 +230,29 @@ def gen_ser_consts():
             if d is None:
                 raise TranslateError("no %s operator for %s" % ("store" if pre == "W" else "load", ty))
             out += "def %s_%s : PrimDesc := ⟨%d, %s, %d, %d, %d⟩\n" % (pre, ident, d[0], "true" if d[1] else "false", d[2], d[3], d[4])
+    # ---- DatatypeValidator::storeDV / loadDV: how "this validator is a built-in, write it by NAME" is decided
+    dvt = strip_c_comments(src("validators/datatype/DatatypeValidator.cpp"))
+    sbody = func_body(dvt, r"void\s+DatatypeValidator::storeDV\s*\(", "DatatypeValidator::storeDV")
+    norm = "".join(sbody.split())
+    ident = "if(dv==DatatypeValidatorFactory::getBuiltInRegistry()->get(dv->getTypeLocalName()))"
+    byname = "if(DatatypeValidatorFactory::getBuiltInRegistry()->containsKey(dv->getTypeLocalName()))"
+    if norm.count("serEng<<DV_BUILTIN;") != 1 or "serEng.writeString(dv->getTypeLocalName());" not in norm:
+        raise TranslateError("storeDV: DV_BUILTIN branch no longer writes the local name once")
+    pre = norm[:norm.index("serEng<<DV_BUILTIN;")]
+    if pre.endswith(ident + "{"):
+        test = 1
+    elif pre.endswith(byname + "{"):
+        test = 2
+    else:
+        raise TranslateError("storeDV: condition guarding DV_BUILTIN not recognised: ..." + pre[-120:])
+    lbody = "".join(func_body(dvt, r"DatatypeValidator\s*\*\s*DatatypeValidator::loadDV\s*\(", "DatatypeValidator::loadDV").split())
+    if "if(DV_BUILTIN==flag){XMLCh*dvName;serEng.readString(dvName);" not in lbody or \
+       "returnDatatypeValidatorFactory::getBuiltInRegistry()->get(dvName);" not in lbody:
+        raise TranslateError("loadDV: DV_BUILTIN branch no longer resolves the stored local name in the built-in registry")
+    out += ("\n/-- how DatatypeValidator::storeDV decides to write a validator by NAME (DV_BUILTIN + local name; loadDV resolves the\n"
+            "name in the built-in registry, which is keyed by local name only): 1 = identity test\n"
+            "`dv == getBuiltInRegistry()->get(dv->getTypeLocalName())`, 2 = name test `containsKey(dv->getTypeLocalName())` -/\n"
+            "def storeDVBuiltinTest : Nat := %d\n" % test)
     out += "\nend XV.Gen.SerConsts\n"
     return out
 
